@@ -60,7 +60,7 @@ SURF_NOTE = ('Trusted base: TLC, pv/surface.py (probe requests and presence pred
 CLAIMED.update({
  'C14': dict(engine='surface', category='exploration', design_ref='7.14', note=SURF_NOTE,
              technique='complete enumeration of the (route, method, version) and (feature, version) tables on the real service, each observation judged by TLC against spec/Surface.tla whose structural laws TLC checks (TraceSurface.tla)',
-             text='Exhaustive: every route and method of the routing table (plus unknown paths and undeclared methods) at all 40 microversions, latest, no header and out-of-range versions: expected disposition 404 / 405 / 406 / handled and the openstack-api-version and Vary headers; each of 71 versioned features (request fields, query parameters, response keys, statuses, headers) probed at all 40 versions must be present exactly in its documented window.'),
+             text='Exhaustive: every route and method of the routing table (plus unknown paths and undeclared methods) at all 40 microversions, latest, no header and out-of-range versions: expected disposition 404 / 405 / 406 / handled and the openstack-api-version and Vary headers; each of 77 versioned features (request fields, query parameters, response keys, statuses, headers) probed at all 40 versions must be present exactly in its documented window.'),
  'C16': dict(engine='surface', category='exploration', design_ref='7.16', note=SURF_NOTE,
              technique='complete enumeration of (operation, caller class, single-rule override) on the real service with table dumps around every probe, judged by TLC against the policy table of spec/Surface.tla (TraceSurface.tla)',
              text='Exhaustive over the routing table x 7 caller classes (no credentials, no roles, reader of own / other project, member, admin, service) under the default policy and under every single-rule override to everyone / nobody: 401 without credentials, 403 for a caller the rule excludes (unless the request is 404/405/406/415 for every caller), never a success, no state change, no stored identifier in the body; allowed callers are never answered 401/403. GET /usages naming one to three projects (own / another, every order) x 5 caller classes x user_id / consumer_type variants: a caller passing only as reader of its own project never obtains the usages of another one.'),
